@@ -55,3 +55,15 @@ Proof.
   unfold house_demand, vnorm; cbn [vol adds]. split; [apply Qred_correct|].
   rewrite get_Qred. rewrite (get_map0 (fun l => l * pop)); [reflexivity | ring].
 Qed.
+
+(* Catchment.get_flow *)
+From WSI Require Import Kinds.
+Theorem catchment_flow_is_data flow conc quality k :
+  vol (ca_get_flow flow conc quality) == flow /\
+  get (adds (ca_get_flow flow conc quality)) k == get conc k * flow /\
+  get (nons (ca_get_flow flow conc quality)) k == get quality k.
+Proof.
+  unfold ca_get_flow, vnorm; cbn [vol adds nons]. split; [apply Qred_correct|]. split.
+  - rewrite get_Qred. rewrite (get_map0 (fun c => c * flow)); [reflexivity | ring].
+  - apply get_Qred.
+Qed.
